@@ -130,10 +130,13 @@ def execute(family, cfg, chooser, *, max_steps=None, real_timeout=120.0):
       max_steps=max_steps or max(simcfg.get('max_steps', 0),
                                  getattr(family, 'max_steps', 300_000)),
       # with function-entry pre-emption one operation costs many more steps
-      spin_k=simcfg.get('spin_k', 300) * (12 if simcfg.get('fine') else 1),
+      spin_k=simcfg.get('spin_k', 300) * (
+          40 if simcfg.get('fine') == 'line' else 12 if simcfg.get('fine') else 1),
       real_timeout=real_timeout,
   )
-  fine = bool(simcfg.get('fine'))
+  # False, True (pre-emption at function entries of the library's modules) or
+  # 'line' (at every line of them)
+  fine = simcfg.get('fine') or False
   s.fine = fine
   # the digest identifies (configuration, schedule), not the schedule alone
   s.log('cfg', hashlib.blake2b(
@@ -190,6 +193,10 @@ def run_random(family, seed, tier='quick'):
   cfg.setdefault('pyseed', rng.randrange(1 << 30))
   stay = cfg.get('sim', {}).get('stay', 0.0)
   chooser = sched.RandomChooser(rng.randrange(1 << 62), stay)
+  # a third of the fine-grained runs pre-empt at every line, not only at
+  # function entries (drawn last: every other draw stays as it was)
+  if cfg.get('sim', {}).get('fine') is True and rng.random() < 0.33:
+    cfg['sim']['fine'] = 'line'
   return cfg, execute(family, cfg, chooser)
 
 
